@@ -153,11 +153,18 @@ impl Cfg {
             c.reset();
             return c;
         }
-        if self.api.starts_with("set") {
+        if self.api.starts_with("set") || self.api.starts_with("wset") {
             // created with a configuration that does no match finding at all (or a different one),
             // then switched to the wanted level by one of the setters before any input: the result
             // must behave like a compressor created from the flags of that level
             let fmt = if self.zlib { DataFormat::Zlib } else { DataFormat::Raw };
+            if self.api == "wsetI" || self.api == "wsetZ" {
+                // a small window fixed at creation, then a setter: the window declared in the header and
+                // the distance bound must both survive whatever the setter accepts
+                let mut c = CompressorOxide::with_params(DataFormat::Zlib, 1, CompressionStrategy::Default, self.wbits);
+                c.set_format_and_level(if self.api == "wsetI" { DataFormat::ZLibIgnoreChecksum } else { DataFormat::Zlib }, self.level);
+                return c;
+            }
             if self.api == "setZ" || self.api == "setZR" {
                 // raw-deflate flags first, switched to the wanted format and level by exactly ONE setter call
                 let fmt = if self.zlib { DataFormat::Zlib } else { DataFormat::Raw };
@@ -230,6 +237,10 @@ impl Cfg {
         }
     }
     pub fn json(&self, c: &CompressorOxide) -> Value {
+        if self.api.starts_with("wset") {
+            return json!({"api": "flags", "level": self.level, "strategy": 0, "zlib": true, "wbits": self.wbits, "flags": c.flags(),
+                          "reused": false, "made_by": self.api});
+        }
         if self.api.starts_with("set") {
             return json!({"api": "flags", "level": self.level, "strategy": 0, "zlib": self.zlib, "wbits": 15, "flags": c.flags(),
                           "reused": self.api == "setR" || self.api == "setZR", "made_by": self.api});
